@@ -3041,6 +3041,169 @@ class _TableDispatch(ast.NodeTransformer):
         return chain[0]
 
 
+def _function_tables(cls: ast.ClassDef) -> dict:
+    """class-level dict displays `T = {"k": f, "m": partial(g, name="x")}` bound once in the class body whose keys are constants and
+    whose values are all plain functions defined in the class body (or functools.partial of one with constant keyword arguments
+    only):  T -> [(key constant node, function name, [keyword nodes])]"""
+    funcs = {st.name for st in cls.body if isinstance(st, ast.FunctionDef) and not st.decorator_list}
+    count, out = {}, {}
+    for st in cls.body:
+        for t in (st.targets if isinstance(st, ast.Assign) else [st.target] if isinstance(st, (ast.AnnAssign, ast.AugAssign)) else []):
+            for x in ast.walk(t):
+                if isinstance(x, ast.Name):
+                    count[x.id] = count.get(x.id, 0) + 1
+        if isinstance(st, ast.Assign) and len(st.targets) == 1 and isinstance(st.targets[0], ast.Name) and isinstance(st.value, ast.Dict) and st.value.keys \
+                and all(isinstance(k, ast.Constant) for k in st.value.keys) and len({repr(k.value) for k in st.value.keys}) == len(st.value.keys) <= 24:
+            rows = []
+            for k, v in zip(st.value.keys, st.value.values):
+                if isinstance(v, ast.Name) and v.id in funcs:
+                    rows.append((k, v.id, []))
+                elif isinstance(v, ast.Call) and ast.unparse(v.func) in ("partial", "functools.partial") and len(v.args) == 1 and isinstance(v.args[0], ast.Name) \
+                        and v.args[0].id in funcs and all(kw.arg and isinstance(kw.value, ast.Constant) for kw in v.keywords):
+                    rows.append((k, v.args[0].id, list(v.keywords)))
+                else:
+                    rows = None
+                    break
+            if rows:
+                out[st.targets[0].id] = rows
+    return {k: v for k, v in out.items() if count.get(k) == 1}
+
+
+def function_table_dispatch(func, cls: ast.ClassDef):
+    """Dispatch through a class-level table of the class's own functions
+
+        reader = self.T.get(key)                 if key == "k":
+        if reader is not None:            ->         self.f(value)
+            reader(self, value)                  elif key == "m":
+                                                     self.g(value, name="x")
+
+    `X = <self|cls|Class>.T.get(K)` / `.T[K]` (T: _function_tables, K a plain name) followed, in the same block, by statements that use
+    X only as the callee of `X(<receiver>, args..)` and in `X is None` / `X is not None` / truth tests, is the if/elif chain over the
+    keys it abbreviates: in every arm X IS that function -- called with the instance first it is the method call -- and in the
+    final arm (no such key) X is None for `.get` (for `T[K]` the KeyError is raised).  The helpers called in the arms can then be put
+    back like any other (expand_helpers).  Anything else (X escaping, re-bound, a table that is edited) is left as written."""
+    tabs = _function_tables(cls)
+    if not tabs:
+        return func
+    edited = set()
+    for n in ast.walk(cls):
+        if isinstance(n, ast.Attribute) and isinstance(n.ctx, (ast.Store, ast.Del)):
+            edited.add(n.attr)
+        elif isinstance(n, ast.Subscript) and isinstance(n.ctx, (ast.Store, ast.Del)) and isinstance(n.value, ast.Attribute):
+            edited.add(n.value.attr)
+        elif isinstance(n, ast.Call) and isinstance(n.func, ast.Attribute) and isinstance(n.func.value, ast.Attribute) and n.func.attr in MUTATORS:
+            edited.add(n.func.value.attr)
+        elif isinstance(n, ast.Call) and isinstance(n.func, ast.Name) and n.func.id in ("setattr", "delattr") and len(n.args) >= 2:
+            # a computed attribute name: any identifier spelled as a string in the class may be meant
+            edited |= {n.args[1].value} if isinstance(n.args[1], ast.Constant) else \
+                {c.value for c in ast.walk(cls) if isinstance(c, ast.Constant) and isinstance(c.value, str) and c.value.isidentifier()}
+    tabs = {k: v for k, v in tabs.items() if k not in edited}
+    recvs = {"self", "cls", cls.name}
+
+    def lookup(v):
+        """(table rows, key name, via get?) of `<recv>.T.get(K[, None])` / `<recv>.T[K]`"""
+        if isinstance(v, ast.Call) and isinstance(v.func, ast.Attribute) and v.func.attr == "get" and not v.keywords and 1 <= len(v.args) <= 2 \
+                and (len(v.args) == 1 or (isinstance(v.args[1], ast.Constant) and v.args[1].value is None)):
+            tab, k, get = v.func.value, v.args[0], True
+        elif isinstance(v, ast.Subscript) and isinstance(v.ctx, ast.Load):
+            tab, k, get = v.value, v.slice, False
+        else:
+            return None
+        if isinstance(tab, ast.Attribute) and isinstance(tab.value, ast.Name) and tab.value.id in recvs and tab.attr in tabs and isinstance(k, ast.Name):
+            return tabs[tab.attr], k.id, get
+        return None
+
+    class Bind(ast.NodeTransformer):
+        """X := the function `f` with keywords kws (f None: X is None)"""
+        def __init__(self, x, f, kws):
+            self.x, self.f, self.kws, self.ok = x, f, kws, True
+
+        def visit_Call(self, n):
+            if isinstance(n.func, ast.Name) and n.func.id == self.x:
+                n.args = [self.visit(a) for a in n.args]
+                n.keywords = [self.visit(k) for k in n.keywords]
+                if self.f is None or not n.args or not isinstance(n.args[0], ast.Name) or isinstance(n.args[0], ast.Starred) \
+                        or any(k.arg is None or k.arg in {q.arg for q in self.kws} for k in n.keywords):
+                    self.ok = self.ok and self.f is None        # (reached only where X is None: pruned below, checked afterwards)
+                    return n
+                return ast.copy_location(ast.Call(func=ast.copy_location(ast.Attribute(value=n.args[0], attr=self.f, ctx=ast.Load()), n),
+                                                  args=n.args[1:], keywords=list(n.keywords) + [copy.deepcopy(k) for k in self.kws]), n)
+            return self.generic_visit(n)
+
+        def visit_Compare(self, n):
+            if isinstance(n.left, ast.Name) and n.left.id == self.x and len(n.ops) == 1 and isinstance(n.ops[0], (ast.Is, ast.IsNot)) \
+                    and isinstance(n.comparators[0], ast.Constant) and n.comparators[0].value is None:
+                return ast.copy_location(ast.Constant(value=(self.f is None) == isinstance(n.ops[0], ast.Is)), n)
+            return self.generic_visit(n)
+
+        def _truth(self, t):
+            if isinstance(t, ast.Name) and t.id == self.x:
+                return ast.copy_location(ast.Constant(value=self.f is not None), t)
+            if isinstance(t, ast.UnaryOp) and isinstance(t.op, ast.Not):
+                t.operand = self._truth(t.operand)
+            elif isinstance(t, ast.BoolOp):
+                t.values = [self._truth(v) for v in t.values]
+            return t
+
+        def visit_If(self, n):
+            n.test = self._truth(n.test)
+            n = self.generic_visit(n)
+            t = n.test
+            # `c and False` / `c or True` with a side-effect free c decides the statement
+            if isinstance(t, ast.BoolOp) and all(isinstance(v, ast.Constant) or _pure(v) for v in t.values):
+                dec = [v for v in t.values if isinstance(v, ast.Constant) and bool(v.value) != isinstance(t.op, ast.And)]
+                if dec:
+                    n.test = ast.copy_location(ast.Constant(value=bool(dec[0].value)), t)
+            return n
+
+        visit_While = visit_If
+
+        def visit_IfExp(self, n):
+            n.test = self._truth(n.test)
+            return self.generic_visit(n)
+
+    def block(stmts):
+        for i, st in enumerate(stmts):
+            for fld in ("body", "orelse", "finalbody"):
+                b = getattr(st, fld, None)
+                if isinstance(b, list) and b and isinstance(b[0], ast.stmt) and not isinstance(st, (ast.FunctionDef, ast.ClassDef, ast.AsyncFunctionDef)):
+                    setattr(st, fld, block(b))
+            if not (isinstance(st, ast.Assign) and len(st.targets) == 1 and isinstance(st.targets[0], ast.Name)):
+                continue
+            lk = lookup(st.value)
+            x = st.targets[0].id
+            rest = stmts[i + 1:]
+            if lk is None or not rest or x in _stored(rest) or lk[1] in _stored(rest) or lk[1] == x:
+                continue
+            rows, key, get = lk
+            uses_elsewhere = sum(1 for n in ast.walk(func) if isinstance(n, ast.Name) and n.id == x) - 1 - sum(1 for r in rest for n in ast.walk(r) if isinstance(n, ast.Name) and n.id == x)
+            if uses_elsewhere:
+                continue
+            arms, good = [], True
+            for k, f, kws in rows + ([(None, None, [])] if get else []):
+                b = Bind(x, f, kws)
+                body = [_Fold().visit(b.visit(copy.deepcopy(r))) for r in rest]
+                body = _prune_const_ifs(body)
+                if any(isinstance(n, ast.Name) and n.id == x for r in body for n in ast.walk(r)):
+                    good = False
+                    break
+                arms.append((k, body or [ast.Pass()]))
+            if not good:
+                continue
+            chain = arms.pop()[1] if get else [ast.Raise(exc=ast.Call(func=ast.Name(id="KeyError", ctx=ast.Load()), args=[ast.Name(id=key, ctx=ast.Load())], keywords=[]), cause=None)]
+            for k, body in reversed(arms):
+                test = ast.Compare(left=ast.Name(id=key, ctx=ast.Load()), ops=[ast.Eq()], comparators=[copy.deepcopy(k)])
+                chain = [ast.If(test=test, body=body, orelse=chain)]
+            new = stmts[:i] + chain
+            for n in new[i:]:
+                ast.copy_location(n, st)
+                ast.fix_missing_locations(n)
+            return new
+        return stmts
+    func.body = block(func.body)
+    return func
+
+
 def namedtuple_tables(mod: ast.Module) -> dict:
     """name -> [field names] of the namedtuple types a module defines at its top level or in a class body:
     `X = namedtuple("X", "a b" | ["a", "b"])` and `class X(NamedTuple): a: T ...`"""
